@@ -76,6 +76,14 @@ trait PoolUT: Send + Sync {
     fn anomalies(&self) -> Vec<String> {
         vec![]
     }
+    /// allocate from the `sel`-th size class of the pool's table (pools with one class ignore it)
+    fn alloc_sel(&self, _sel: usize) -> Result<Block, String> {
+        self.alloc()
+    }
+    /// anomalies visible once every block has been returned (live-block counters must be 0)
+    fn quiescent_anomalies(&self) -> Vec<String> {
+        vec![]
+    }
 }
 
 struct Secure(Arc<zipora::memory::SecureMemoryPool>);
@@ -109,10 +117,16 @@ impl PoolUT for Secure {
 }
 
 struct LockFree(zipora::memory::lockfree_pool::LockFreeMemoryPool, usize);
+const LOCKFREE_SIZES: [usize; 6] = [16, 64, 128, 512, 4096, 12_000];
 impl PoolUT for LockFree {
     fn alloc(&self) -> Result<Block, String> {
         let p = self.0.allocate(self.1).map_err(|e| e.to_string())?;
         Ok(Block { addr: p.as_ptr() as usize, size: self.1, ptr: Some(p.as_ptr() as usize), handle: None, pattern: 0 })
+    }
+    fn alloc_sel(&self, sel: usize) -> Result<Block, String> {
+        let size = LOCKFREE_SIZES[sel % LOCKFREE_SIZES.len()];
+        let p = self.0.allocate(size).map_err(|e| e.to_string())?;
+        Ok(Block { addr: p.as_ptr() as usize, size, ptr: Some(p.as_ptr() as usize), handle: None, pattern: 0 })
     }
     fn free(&self, b: Block) -> Result<(), String> {
         self.0.deallocate(std::ptr::NonNull::new(b.addr as *mut u8).unwrap(), b.size).map_err(|e| e.to_string())
@@ -180,10 +194,28 @@ impl PoolUT for Mutex5 {
 }
 
 struct Fixed(Arc<zipora::memory::fixed_capacity_pool::FixedCapacityMemoryPool>, usize);
+const FIXED_SIZES: [usize; 3] = [16, 64, 200];
 impl PoolUT for Fixed {
     fn alloc(&self) -> Result<Block, String> {
         let a = self.0.allocate(self.1).map_err(|e| e.to_string())?;
         Ok(Block { addr: a.as_ptr() as usize, size: a.size(), ptr: Some(a.as_ptr() as usize), handle: Some(Box::new(a)), pattern: 0 })
+    }
+    fn alloc_sel(&self, sel: usize) -> Result<Block, String> {
+        let a = self.0.allocate(FIXED_SIZES[sel % 3]).map_err(|e| e.to_string())?;
+        Ok(Block { addr: a.as_ptr() as usize, size: a.size(), ptr: Some(a.as_ptr() as usize), handle: Some(Box::new(a)), pattern: 0 })
+    }
+    fn quiescent_anomalies(&self) -> Vec<String> {
+        match self.0.stats() {
+            Some(s) => {
+                let (a, d, live) = (s.allocations.load(Ordering::SeqCst), s.deallocations.load(Ordering::SeqCst), s.active_blocks.load(Ordering::SeqCst));
+                if live != 0 || a != d {
+                    vec![format!("every block was returned, yet active_blocks = {live} (allocations = {a}, deallocations = {d})")]
+                } else {
+                    vec![]
+                }
+            }
+            None => vec![],
+        }
     }
     fn free(&self, b: Block) -> Result<(), String> {
         drop(b.handle);
@@ -216,6 +248,12 @@ impl PoolUT for Basic {
 }
 
 fn make_pool(pool: u8, knob: u8) -> Result<Arc<dyn PoolUT>, String> {
+    make_pool_for(pool, knob, false)
+}
+
+/// `free_running`: also the two block sizes above the recycling bins (never reissued after a
+/// free -- the known skip-list stub of C07 -- so the scheduled cells' drain check cannot use them)
+fn make_pool_for(pool: u8, knob: u8, free_running: bool) -> Result<Arc<dyn PoolUT>, String> {
     use zipora::memory::five_level_pool::{FiveLevelPoolConfig, LockFreePool, MutexBasedPool};
     match POOLS[pool as usize % POOLS.len()] {
         "secure" => {
@@ -225,7 +263,8 @@ fn make_pool(pool: u8, knob: u8) -> Result<Arc<dyn PoolUT>, String> {
         "lockfree" => {
             let mut cfg = zipora::memory::lockfree_pool::LockFreePoolConfig::compact();
             cfg.memory_size = 64 * 1024;
-            let size = [16usize, 64, 128, 512][knob as usize % 4];
+            // 4096 / 12000: a few blocks fill the 64 KiB pool, so refused requests are in flight
+            let size = LOCKFREE_SIZES[knob as usize % if free_running { 6 } else { 4 }];
             Ok(Arc::new(LockFree(zipora::memory::lockfree_pool::LockFreeMemoryPool::new(cfg).map_err(|e| e.to_string())?, size)))
         }
         "lockfree5" => {
@@ -427,8 +466,9 @@ impl Claims {
 /// Thread body of the free-running cells: same operations, ownership through `Claims`
 /// (claimed after the pool handed the block out, released before it goes back: the claimed
 /// interval lies inside the owned interval, so two claims on one address are two owners).
-fn thread_body_fast(pool: Arc<dyn PoolUT>, sh: Arc<Shared>, claims: Arc<Claims>, me: usize, ops: Vec<Op>, loops: usize) {
+fn thread_body_fast(pool: Arc<dyn PoolUT>, sh: Arc<Shared>, claims: Arc<Claims>, me: usize, ops: Vec<Op>, loops: usize, mixed: bool) {
     let mut mine: Vec<Block> = vec![];
+    let mut nth = me;
     let mut pat = (me as u8).wrapping_mul(37) | 1;
     let give_back = |b: Block, whence: &str| {
         check_pattern(&sh, &b, whence);
@@ -447,7 +487,9 @@ fn thread_body_fast(pool: Arc<dyn PoolUT>, sh: Arc<Shared>, claims: Arc<Claims>,
                     if mine.len() >= 24 {
                         continue; // keep the working set small: the pool must not run dry
                     }
-                    let Ok(mut b) = pool.alloc() else { continue };
+                    nth += 1;
+                    // mixed: the size class changes from one request to the next
+                    let Ok(mut b) = (if mixed { pool.alloc_sel(nth) } else { pool.alloc() }) else { continue };
                     if let Some(owner) = claims.claim(b.addr, me) {
                         sh.v("ownership", "block_shared", format!("thread {me} was handed block {:#x} (+{}) while thread {owner} still owns it", b.addr, b.size));
                         sh.poisoned.store(true, Ordering::SeqCst);
@@ -483,9 +525,11 @@ fn thread_body_fast(pool: Arc<dyn PoolUT>, sh: Arc<Shared>, claims: Arc<Claims>,
 
 /// One free-running run: fresh pool, all threads released together, no schedule.
 fn run_once_free(c: &Case, loops: usize) -> Result<Vec<(String, String, String)>, String> {
-    let pool = make_pool(c.pool, c.knob)?;
+    let pool = make_pool_for(c.pool, c.knob, true)?;
     let sh = Arc::new(Shared::default());
     let claims = Arc::new(Claims::new());
+    // knob bit 3: requests cycle through the pool's size classes (pools with a size table)
+    let mixed = c.knob & 8 != 0;
     let mut pre = vec![];
     for _ in 0..(c.prefreed % 4) {
         if let Ok(b) = pool.alloc() {
@@ -501,7 +545,7 @@ fn run_once_free(c: &Case, loops: usize) -> Result<Vec<(String, String, String)>
         .enumerate()
         .map(|(i, ops)| {
             let (p, s, cl, ops) = (pool.clone(), sh.clone(), claims.clone(), ops.clone());
-            Box::new(move || thread_body_fast(p, s, cl, i, ops, loops)) as Box<dyn FnOnce() + Send>
+            Box::new(move || thread_body_fast(p, s, cl, i, ops, loops, mixed)) as Box<dyn FnOnce() + Send>
         })
         .collect();
     sched::run_free(progs);
@@ -513,6 +557,9 @@ fn run_once_free(c: &Case, loops: usize) -> Result<Vec<(String, String, String)>
             if rf > ra {
                 sh.v("counters", "do_not_add_up", format!("pool reports allocations={ra} < deallocations={rf}"));
             }
+        }
+        for a in pool.quiescent_anomalies() {
+            sh.v("counters", "not_balanced_at_quiescence", a);
         }
     } else {
         std::mem::forget(pool);
@@ -603,6 +650,9 @@ fn run_once_with(c: &Case, schedule: Option<Schedule>, loops: usize) -> Result<O
             for b in got {
                 do_free(&*pool, &sh, b, "drain");
             }
+            for a in pool.quiescent_anomalies() {
+                sh.v("counters", "not_balanced_at_quiescence", a);
+            }
         } else {
             for b in got {
                 std::mem::forget(b);
@@ -655,7 +705,7 @@ impl Prop for P {
     fn assumptions(&self) -> Vec<String> {
         vec![
             "scheduled cells: only sequentially consistent interleavings, pre-emption only at the instrumented points (hook H1); *_free cells: whatever the host's scheduler and 16 cores produce (not reproducible step by step; the oracle is the same and cannot raise a false alarm, a detection is confirmed by re-running the case)".into(),
-            "one size class per case (mixed size classes are property C07)".into(),
+            "scheduled cells: one size class per case (mixed size classes are property C07); *_free cells cycle through the pool's size classes when knob bit 3 is set".into(),
             "after a detected double hand-out the run leaks its blocks instead of freeing them (the worker's heap must stay usable)".into(),
         ]
     }
